@@ -127,10 +127,15 @@ theorem delta_append (a b : List Line) :
 
 /-! ## whole functions: one height per label -/
 
-/-- the label a jump instruction goes to (`none` for `jmp *%rax`) -/
+/-- the label a jump instruction goes to (`none` for `jmp *%rax`).  (Written with `List Char`
+    operations: `String.startsWith`/`trim` do not reduce in the kernel, and the findings evaluate
+    this checker by `decide`.) -/
 def jumpTarget (i : Ins) : Option String :=
   match i.a with
-  | [.s t] => if t.startsWith "*" then none else some t.trimAscii.toString
+  | [.s t] =>
+    match t.toList.dropWhile (· == ' ') with
+    | '*' :: _ => none
+    | cs => some (String.ofList cs)
   | _ => none
 
 inductive Step where
@@ -170,19 +175,27 @@ def classify (l : Line) : List Step :=
 /-- numeric local labels (`1:` … `9:`): a reference `1f` means the next definition of `1`, `1b` the
     previous one.  `renameLocals` gives every definition a unique name `N#k` and rewrites the
     references, so that the rest of the check can treat all labels alike. -/
-def isNumLabel (l : String) : Bool := l.length == 1 && l.all Char.isDigit
+def isNumLabel (l : String) : Bool :=
+  match l.toList with
+  | [c] => c.isDigit
+  | _ => false
+
+/-- `1f` ↦ (1, forward), `1b` ↦ (1, backward) -/
+def localRef (t : String) : Option (String × Bool) :=
+  match t.toList with
+  | [d, 'f'] => if d.isDigit then some (String.ofList [d], true) else none
+  | [d, 'b'] => if d.isDigit then some (String.ofList [d], false) else none
+  | _ => none
 
 def renameLocals : List Step → List (String × Nat) → List Step
   | [], _ => []
   | s :: r, seen =>
     let cnt (d : String) : Nat := (seen.lookup d).getD 0
     let ref (t : String) : String :=
-      if t.length == 2 && isNumLabel (t.take 1).toString then
-        let d := (t.take 1).toString
-        if t.endsWith "f" then s!"{d}#{cnt d + 1}"
-        else if t.endsWith "b" then s!"{d}#{cnt d}"
-        else t
-      else t
+      match localRef t with
+      | some (d, true) => s!"{d}#{cnt d + 1}"
+      | some (d, false) => s!"{d}#{cnt d}"
+      | none => t
     match s with
     | .label l =>
       if isNumLabel l then
@@ -219,7 +232,7 @@ def infer : List Step → Option H → Labelling → Labelling
 
 /-- `.L.return.<fn>`: jumping there must happen with nothing left on the machine stack (the x87
     stack may hold the long double return value) -/
-def isReturnLabel (l : String) : Bool := l.startsWith ".L.return."
+def isReturnLabel (l : String) : Bool := ".L.return.".toList.isPrefixOf l.toList
 
 /-- pass 2 — the definition of consistency for a given labelling: scan the code once; at every
     label and at every jump the current height must be the label's height; heights stay within the
